@@ -602,4 +602,90 @@ theorem part_fields_dataTypes {t : Top} {c : Comp} (hc : c ∈ t.parts) {ty : Ty
     simp [Top.parts] at hc
     rcases hc with hc | hc <;> subst hc <;> simp [Top.dataTypes, h']
 
+/-! ## brackets -/
+
+/-- Identifier characters: no bracket, no slash, no newline. -/
+def plainName (n : Str) : Prop := ∀ c ∈ n, c ≠ '{' ∧ c ≠ '}' ∧ c ≠ '/' ∧ c ≠ '\n'
+
+theorem depthAfter_other (c : Char) (rest : Str) (d : Nat) (h1 : c ≠ '{') (h2 : c ≠ '}') :
+    depthAfter (c :: rest) d = depthAfter rest d := by
+  rw [depthAfter.eq_def]
+  split <;> simp_all
+
+theorem depthAfter_plain (n : Str) (hn : plainName n) (rest : Str) (d : Nat) :
+    depthAfter (n ++ rest) d = depthAfter rest d := by
+  induction n with
+  | nil => rfl
+  | cons c cs ih =>
+    have hc := hn c (List.mem_cons_self ..)
+    simp only [List.cons_append]
+    rw [depthAfter_other _ _ _ hc.1 hc.2.1]
+    exact ih (fun x hx => hn x (List.mem_cons_of_mem _ hx))
+
+theorem stripLineComments_other (c : Char) (rest : Str) (h : c ≠ '/') :
+    stripLineComments (c :: rest) = c :: stripLineComments rest := by
+  rw [stripLineComments.eq_def]
+  split <;> simp_all
+
+theorem stripLineComments_comment (rest : Str) :
+    stripLineComments ('/' :: '/' :: rest) = stripLineComments.skipLine rest := by
+  rw [stripLineComments.eq_def]; simp
+
+theorem skipLine_plain (n : Str) (hn : plainName n) (rest : Str) :
+    stripLineComments.skipLine (n ++ rest) = stripLineComments.skipLine rest := by
+  induction n with
+  | nil => rfl
+  | cons c cs ih =>
+    have hc := hn c (List.mem_cons_self ..)
+    simp only [List.cons_append]
+    rw [stripLineComments.skipLine.eq_def]
+    split
+    · simp at *
+    · rename_i h; simp at h; exact absurd h.1 hc.2.2.2
+    · rename_i h; simp at h; obtain ⟨rfl, rfl⟩ := h
+      exact ih (fun x hx => hn x (List.mem_cons_of_mem _ hx))
+
+theorem skipLine_nl (rest : Str) : stripLineComments.skipLine ('\n' :: rest) = '\n' :: stripLineComments rest := by
+  rw [stripLineComments.skipLine.eq_def]; simp
+
+theorem depthAfter_close (rest : Str) (d : Nat) : depthAfter ('}' :: rest) (d + 1) = depthAfter rest d := by
+  rw [depthAfter.eq_def]; simp
+
+theorem depthAfter_open (rest : Str) (d : Nat) : depthAfter ('{' :: rest) d = depthAfter rest (d + 1) := by
+  rw [depthAfter.eq_def]; simp
+
+/-! ## taking `xCompFac` / `xCompMay` apart -/
+
+theorem mem_xCompFac {o : Opts} {fp : Bool} {c : Comp} {f : Fac} (h : f ∈ xCompFac o fp c) :
+    f = .xSizeT ∨ f = .xLimits ∨ (fp = true ∧ f = .xFixedInt)
+    ∨ (∃ ty, (ty ∈ c.fields ∨ ty ∈ c.consts) ∧ f ∈ xTyFac o ty)
+    ∨ (c.isUnion = true ∧ hasVariant o = true ∧ (f = .xVariant ∨ f = .xTypeTraits))
+    ∨ (c.isUnion = true ∧ hasVariant o = false ∧ (f = .xTypeTraits ∨ f = .xUtility ∨ f = .xNew))
+    ∨ (o.allocCtor = true ∧ f = .xAlloc) := by
+  unfold xCompFac at h
+  simp only [List.mem_append, List.mem_flatMap, List.mem_filter] at h
+  rcases h with ((((h | h) | h) | h) | h) | h
+  · simp at h; rcases h with h | h <;> simp [h]
+  · by_cases hp : fp = true <;> simp [hp] at h
+    exact Or.inr (Or.inr (Or.inl ⟨hp, h⟩))
+  · obtain ⟨ty, ⟨hty, _⟩, hf⟩ := h
+    exact Or.inr (Or.inr (Or.inr (Or.inl ⟨ty, Or.inl hty, hf⟩)))
+  · obtain ⟨ty, hty, hf⟩ := h
+    exact Or.inr (Or.inr (Or.inr (Or.inl ⟨ty, Or.inr hty, hf⟩)))
+  · by_cases hu : c.isUnion = true <;> by_cases hv : hasVariant o = true <;> simp [hu, hv] at h
+    · exact Or.inr (Or.inr (Or.inr (Or.inr (Or.inl ⟨hu, hv, h⟩))))
+    · exact Or.inr (Or.inr (Or.inr (Or.inr (Or.inr (Or.inl ⟨hu, by simpa using hv, h⟩)))))
+  · by_cases ha : o.allocCtor = true <;> simp [ha] at h
+    exact Or.inr (Or.inr (Or.inr (Or.inr (Or.inr (Or.inr ⟨ha, h⟩)))))
+
+theorem mem_xCompMay {o : Opts} {c : Comp} {f : Fac} (h : f ∈ xCompMay o c) :
+    (c.isUnion = true ∧ hasVariant o = false ∧ f = .xMemory) ∨ (o.allocCtor = true ∧ (f = .xUtility ∨ f = .xMemory)) := by
+  unfold xCompMay at h
+  simp only [List.mem_append] at h
+  rcases h with h | h
+  · by_cases hu : c.isUnion = true <;> by_cases hv : hasVariant o = true <;> simp [hu, hv] at h
+    exact Or.inl ⟨hu, by simpa using hv, h⟩
+  · by_cases ha : o.allocCtor = true <;> simp [ha] at h
+    exact Or.inr ⟨ha, h⟩
+
 end NunavutVerif.Deps
